@@ -5,6 +5,18 @@ sys.path.insert(0, os.path.dirname(os.path.abspath(__file__)))
 import claims
 
 VERIF = os.path.dirname(os.path.dirname(os.path.abspath(__file__)))
+
+
+def hook_commits():
+    """The hook commits of /repo (subject starts with `verif:`), oldest first."""
+    import subprocess
+    try:
+        out = subprocess.run(['git', '-C', '/repo', 'log', '--reverse', '--format=%H %s'], stdout=subprocess.PIPE, text=True).stdout
+        return [l.split()[0] for l in out.splitlines() if l.split(' ', 1)[1].startswith('verif:')]
+    except Exception:
+        return claims.HOOK_COMMITS
+
+
 m = {
     "version": 1,
     "setup_cmd": "./setup.sh",
@@ -12,7 +24,7 @@ m = {
         "guard": "verif",
         "enable": "go build -tags verif (the harness module /verif/harness replaces github.com/klev-dev/klevdb => /repo)",
         "baseline_off_cmd": "cd /repo && GOFLAGS=-mod=mod GOPROXY=off go test -json -vet=off -count=1 -timeout 25m ./...",
-        "source_commits": claims.HOOK_COMMITS,
+        "source_commits": hook_commits(),
         "add_only": True,
     },
     "engines": [
